@@ -259,8 +259,8 @@ def _written_grids(target, out):
         t = parsers.tabeam(out)
         p = [b for b in t["blocks"] if b["kind"] == "pair"][0]
         e = [b for b in t["blocks"] if b["kind"] == "embe"][0]
-        res["r"] = (p["n"], None, p["end"], 1.0000001e-6)
-        res["rho"] = (e["n"], None, e["end"], 1.0000001e-6)
+        res["r"] = (p["n"], None, p["end"], 1e-13 * abs(p["end"]))
+        res["rho"] = (e["n"], None, e["end"], 1e-13 * abs(e["end"]))
     return res
 
 
